@@ -1,0 +1,18 @@
+//go:build verif
+
+package meta
+
+import (
+	"github.com/nspcc-dev/bbolt"
+	"github.com/nspcc-dev/neofs-node/pkg/local_object_storage/shard/mode"
+)
+
+// VerifMode returns the metabase's own mode and whether its bolt handle
+// is open (verification harness only).
+func (db *DB) VerifMode() (mode.Mode, bool) {
+	db.modeMtx.RLock()
+	defer db.modeMtx.RUnlock()
+
+	open := db.boltDB != nil && db.boltDB.View(func(*bbolt.Tx) error { return nil }) == nil
+	return db.mode, open
+}
